@@ -202,8 +202,9 @@ def pre (cfg : Cfg) (impl : Impl) (c : Conn) (t : Msg) : Mid :=
             | .e n k => ⟨c', held, .answer [chk] (.e n k)⟩
             | .r _ => ⟨c', held, .answer [chk, attachCall] (impl attachCall)⟩
           else ⟨c', held, .answer [attachCall] (impl attachCall)⟩
+        -- the fid being created is not visible yet (FidGet treats a pending fid as unknown)
         if afid != NOFID then
-          match lookup fs afid with
+          match (if afid == fid then none else lookup fs afid) with
           | none => ⟨{ c with fids := fs }, [fid], .refuse .unknownfid⟩
           | some _ => go (incRef fs afid) [fid, afid] (some afid)
         else go fs [fid] none
